@@ -32,8 +32,12 @@ class Violation(Exception):
         self.msg = msg
 
 
-class ReplayMismatch(Exception):
+class ReplayMismatch(BaseException):
     pass
+
+
+class HarnessError(BaseException):
+    """A bug in the harness itself; BaseException so that code under test cannot swallow it."""
 
 
 class CoverMixin:
@@ -175,7 +179,7 @@ class Sym(CoverMixin):
 
     def _reg(self, name, v, kind):
         if name in self.vals:
-            raise RuntimeError(f"duplicate symbolic name {name}")
+            raise HarnessError(f"duplicate symbolic name {name}")
         self.vals[name] = v
         self.kinds[name] = kind
         return v
